@@ -15,6 +15,11 @@ Theorem C06_machine_is_depth_first : forall lc h st tr r,
   (exists g, run g lc (init h) st tr = Some r) <-> (exists f, eval f lc h st tr = Some r).
 Proof. exact machine_is_depth_first. Qed.
 
+(* the modifications reported by the first half of an and_then are acted on exactly as those of followed_by *)
+Theorem C06_and_then_is_sequencing : forall lc g a b st tr,
+  run g lc (init (HThen a b)) st tr = run g lc (init (HSeq a b)) st tr.
+Proof. exact and_then_is_sequencing. Qed.
+
 (* the result does not depend on how long the machine is allowed to run *)
 Theorem C06_deterministic : forall lc g1 g2 s st tr r1 r2,
   run g1 lc s st tr = Some r1 -> run g2 lc s st tr = Some r2 -> r1 = r2.
